@@ -102,4 +102,88 @@ theorem generated_bf_length (norm : List K → K) (pids : List Int) (r : Rose) (
     rw [List.getD_eq_getElem?_getD, List.getElem?_eq_getElem hv.2]
     simp
 
+/-! ### the property's first sentence for the code as it is: Σ branch lengths = tree length (at `K = Rat`, where sums may be reordered) -/
+
+mutual
+theorem edges_c05 : ∀ r : Rose, C08.edges r = C05.edges r
+  | .node i ks => by simp [C08.edges, C05.edges, edgesL_c05 ks]
+theorem edgesL_c05 : ∀ ks : List Rose, C08.edgesL ks = C05.edgesL ks
+  | [] => rfl
+  | r :: rs => by simp [C08.edgesL, C05.edgesL, edges_c05 r, edgesL_c05 rs]
+end
+
+theorem foldl_add_sum : ∀ (l : List Rat) (a : Rat), l.foldl (fun acc x => acc + x) a = a + l.sum
+  | [], a => by simp
+  | x :: l, a => by
+    simp only [List.foldl_cons, List.sum_cons]
+    rw [foldl_add_sum l]; ring
+
+theorem sumK_eq_sum (l : List Rat) : Py.Nf.sumK l = l.sum := by
+  simp [Py.Nf.sumK, foldl_add_sum]
+
+theorem rangeI_drop_one (n : Nat) : (Sub.rangeI n).drop 1 = (List.range (n - 1)).map fun (k : Nat) => ((k + 1 : Nat) : Int) := by
+  cases n with
+  | zero => simp [Sub.rangeI]
+  | succ m =>
+    simp only [Sub.rangeI, List.range_succ_eq_map, List.map_cons, List.drop_one, List.tail_cons, List.map_map, Nat.add_sub_cancel]
+    rfl
+
+/-- on the table of a tree object every non-root row has a parent that is a row -/
+theorem isTree_par {r : Rose} {pids : List Int} (h : C06.IsTree r pids) (k : Nat) (hk : k + 1 < pids.length) :
+    0 ≤ pids.getD (k + 1) 0 ∧ (pids.getD (k + 1) 0).toNat < pids.length := by
+  have hm : ((k + 1 : Nat) : Int) ∈ r.ids := (C06.isTree_mem h _).2 ⟨by omega, by simpa using hk⟩
+  rcases C06.edge_of_mem r _ hm with e | ⟨a, ha, he⟩
+  · rw [h.2.2.1] at e; omega
+  · obtain ⟨_, _, hp⟩ := C06.edge_parent pids r h.1 a _ he
+    have ha' := (C06.isTree_mem h a).1 ha
+    have : pids.getD (k + 1) 0 = a := by
+      rw [← hp]
+      simp [List.getD_eq_getElem?_getD, hk]
+    rw [this]; exact ha'
+
+/-- **Σ over the branches of `Tree.get_branches` of the translated `Branch.length` = the translated `Tree.length`** — the first sentence of
+C10 for the code as it is: for every tree object `r` (ids = positions, any shape) with coordinates (one row of `d` numbers per node),
+every `norm`, and every fuel `≥ 2·|r| + 1`, both translated methods succeed and the sum (numpy / Python `sum` order: sequential from 0;
+exact rational arithmetic, float rounding is outside the theorem) of the translated `BranchFeatures.get_length` entries equals the
+translated `Tree.length`.  Uses `C08.generated_getBranches_eq` and the partition theorem `C08.branches_partition_edges`. -/
+theorem generated_sum_branch_lengths_eq_tree_length (norm : List Rat → Rat) (pids : List Int) (r : Rose) (h : C06.IsTree r pids)
+    (axyz : List (List Rat)) (d : Nat) (hlen : axyz.length = pids.length) (hdim : ∀ r ∈ axyz, r.length = d) (F : Nat) :
+    ∃ Ls L, nf_bf_length norm (2 * r.size + F + 1) (Sub.rangeI pids.length) pids axyz = some Ls ∧
+      nf_tree_length norm (Sub.rangeI pids.length) pids axyz = some L ∧ Py.Nf.sumK Ls = L := by
+  refine ⟨_, _, generated_bf_length norm pids r h axyz d hlen hdim F,
+    generated_tree_length norm pids axyz d ⟨hlen, isTree_par h, hdim⟩, ?_⟩
+  let elen : Int → Rat := fun i => norm (vec axyz (pids.getD i.toNat 0) i)
+  simp only [sumK_eq_sum, List.sum_singleton]
+  rw [FeatP.sum_flatMap_pairs (fun e => norm (vec axyz e.1 e.2)),
+    ((C08.branches_partition_edges r).map (fun e : Int × Int => norm (vec axyz e.1 e.2))).sum_eq]
+  have hE : (C08.edges r).map (fun e : Int × Int => norm (vec axyz e.1 e.2)) = ((C08.edges r).map (·.2)).map elen := by
+    rw [List.map_map]
+    apply List.map_congr_left
+    intro e he
+    rw [edges_c05] at he
+    obtain ⟨_, hlt, hp⟩ := C06.edge_parent pids r h.1 e.1 e.2 he
+    have : pids.getD e.2.toNat 0 = e.1 := by
+      rw [← hp]; simp [List.getD_eq_getElem?_getD, hlt]
+    simp only [elen, Function.comp_apply, this]
+  rw [hE, ((FeatP.edges_snd_tree h).map elen).sum_eq, FeatP.rangeI_eq, rangeI_drop_one, List.map_map]
+  simp [elen, Function.comp_def]
+
+/-- non-vacuity (kernel-evaluated, squared norm): the tree of `exP` with the coordinates `exXYZ`; its branches `[0,1] [1,2] [1,3] [0,4]` -/
+example : C06.IsTree (.node 0 [.node 1 [.node 2 [], .node 3 []], .node 4 []]) exP := by
+  refine ⟨⟨?_, by decide⟩, by decide, rfl, rfl⟩
+  simp [exP, Agrees, AgreesL, tableKids, Rose.id, Sub.rangeI, List.range, List.range.loop]
+def nfSqR (v : List Rat) : Rat := v.foldl (fun a x => a + x * x) 0
+def exXYZR : List (List Rat) := [[0, 0, 0], [3, 4, 0], [3, 4, 5], [6, 8, 0], [0, 0, 2]]
+example : nf_bf_length nfSqR 14 (Sub.rangeI 5) exP exXYZR = some [25, 25, 25, 4] ∧
+          nf_tree_length nfSqR (Sub.rangeI 5) exP exXYZR = some 79 ∧
+          nf_path_length nfSqR exXYZR [0, 1, 3, 4] = some (25 + 25 + 104) ∧ nf_path_length nfSqR exXYZR [2] = some 0 ∧
+          nf_path_length nfSqR exXYZR [] = some 0 := by decide +kernel
+example : nf_furcation_nodes (Sub.rangeI 5) exP = some [true, true, false, false, false] ∧
+          nf_tip_nodes (Sub.rangeI 5) exP = some [false, false, true, true, true] ∧
+          nf_branch_order 14 (Sub.rangeI 5) exP = some [0, 1, 2, 2, 1] ∧
+          (List.range 5).map (fun (k : Nat) => Rose.depthOf (k : Int) (.node 0 [.node 1 [.node 2 [], .node 3 []], .node 4 []]) 0)
+            = [some 0, some 1, some 2, some 2, some 1] ∧
+          nf_subset_radial_distance nfSqR (Sub.rangeI 5) exP [1, 3, 3, 3, 3] exXYZR [false, false, true, true, true] = some [50, 100, 4] := by
+  decide +kernel
+
 end C10
